@@ -12,6 +12,25 @@ for d in sorted(glob.glob(os.path.join(verif, "seeded", "*"))):
     r = subprocess.run([os.path.join(verif, "tools", "mutant.py"), os.path.join(d, "patch.diff"), prop], capture_output=True, text=True)
     line = (r.stdout.strip().splitlines() or ["?"])[-1]
     verdict = line.split()[0]
+    if meta.get("neutralised_by"):
+        # the change needs a defect that was repaired since: it no longer breaks the property, the check must stay silent
+        ok = verdict == "MISSED"
+        meta["checks"][prop]["verdict"] = f"SILENT (change is harmless since fix {meta['neutralised_by']}; was CAUGHT before)" if ok else verdict
+        json.dump(meta, open(os.path.join(d, "meta.json"), "w"), indent=1)
+        print(os.path.basename(d), "SILENT-AS-EXPECTED" if ok else f"UNEXPECTED {verdict}", flush=True)
+        bad += 0 if ok else 1
+        continue
+    also = [p for p in meta.get("checks", {}) if p != prop and meta["checks"][p].get("verdict") == "CAUGHT"]
+    if verdict != "CAUGHT" and meta.get("attribution_note") and also:
+        # statement-wise a break of another property: that check has to catch it
+        r2 = subprocess.run([os.path.join(verif, "tools", "mutant.py"), os.path.join(d, "patch.diff"), also[0]], capture_output=True, text=True)
+        v2 = ((r2.stdout.strip().splitlines() or ["?"])[-1]).split()[0]
+        meta["checks"][also[0]]["verdict"] = v2
+        meta["checks"].setdefault(prop, {})["verdict"] = verdict
+        json.dump(meta, open(os.path.join(d, "meta.json"), "w"), indent=1)
+        print(os.path.basename(d), f"{verdict} by {prop} (see attribution_note), {v2} by {also[0]}", flush=True)
+        bad += 0 if v2 == "CAUGHT" else 1
+        continue
     meta.setdefault("checks", {}).setdefault(prop, {})["verdict"] = verdict
     meta["checks"][prop]["first_message"] = " ".join(line.split()[3:])[:300]
     json.dump(meta, open(os.path.join(d, "meta.json"), "w"), indent=1)
